@@ -278,6 +278,17 @@ def fixtures(chk: core.Check, thorough: bool):
                                 chk.failing_input("member values of an object", {"file": fn, "branch": name, "event": ev, "object": oi}, b[:40], a[:40],
                                                   "for every data member the same value as a member-by-member deserialisation of the same bytes that follows the file's own streamer information")
                                 return
+                    # entry ranges of the same branch against the same independent decode (nothing may move between events)
+                    if len(pv) >= 3 and any(len(e) for e in pv if isinstance(e, list)):
+                        with uproot.open(p) as f2:
+                            br2 = f2["Event"][name]
+                            for a_, b_ in ((1, len(pv)), (len(pv) // 2, len(pv) - 1), (len(pv) - 1, len(pv))):
+                                part = ak.to_list(br2.array(entry_start=a_, entry_stop=b_))
+                                chk.count(1, key=f"range-{fn}-{name}-{a_}")
+                                if part != pv[a_:b_]:
+                                    chk.failing_input("entry range of a collection branch vs the independent decode of the same events", {"file": fn, "branch": name, "entry_start": a_, "entry_stop": b_},
+                                                      str(part)[:500], str(pv[a_:b_])[:500], "no member is shifted between objects or moved between events")
+                                    return
                     n_oracle_ok += 1
                     chk.distinct.add(f"oracle-{fn}-{name}")
     finally:
@@ -300,6 +311,206 @@ def fixtures(chk: core.Check, thorough: bool):
                 chk.obligation_broken("correspondence", "Lean TObjArray model (framing mode) vs the reader's per-event counts on real baskets", str(bad[:3]))
         except core.DriverError as ex:
             chk.obligation_broken("correspondence", "Root driver (framing)", str(ex))
+
+
+
+PRIM = {1: "b", 2: "h", 3: "i", 4: "q", 5: "f", 8: "d", 11: "B", 12: "H", 13: "I", 14: "Q", 18: "?", 16: "q", 17: "Q", 6: "i", 15: "I"}
+
+
+def factory_chain(chk: core.Check, thorough: bool):
+    """every registered collection class whose streamer information is simple enough (primitives, fixed arrays, bases):
+    hand-serialised streams decoded through the PUBLIC chain build_factory -> build_cpp_reader -> read_data ->
+    make_awkward_content, compared member by member with the encoded values"""
+    import copy
+    import struct
+    import awkward as ak
+    import uproot
+    import uproot_custom
+    import uproot_custom.cpp
+    import pybes3.besio.root_io as rio
+    rng = random.Random(f"C01-chain-{chk.seed}")
+    streamers = {}
+    for fn in FIXTURES:
+        p = core.REPO / "tests" / "data" / fn
+        if not p.exists():
+            continue
+        with uproot.open(p) as f:
+            tree = f["Event"]
+            for k in tree.keys(recursive=True):
+                it = tree[k].interpretation
+                if isinstance(it, rio.Bes3Interpretation):
+                    for name, v in it.all_streamer_info.items():
+                        streamers.setdefault(name, copy.deepcopy(v))
+                    break
+    if "TMucDigi" in streamers and "THltRaw" not in streamers:
+        streamers["THltRaw"] = copy.deepcopy(streamers["TMucDigi"])     # BOSS: class THltRaw : public TRawData {} (no own members)
+
+    def simple(cls, seen=()):
+        if cls in seen or cls not in streamers:
+            return False
+        for el in streamers[cls]:
+            if el["fTypeName"] == "BASE":
+                if el["fType"] == 66:
+                    continue
+                if not simple(el["fName"], seen + (cls,)):
+                    return False
+            elif el["fType"] in PRIM and el["fArrayDim"] == 0:
+                continue
+            elif el["fType"] - 20 in PRIM and el["fArrayDim"] > 0:
+                continue
+            else:
+                return False
+        return True
+
+    def enc_class(cls, truth, referenced):
+        body = struct.pack(">h", rng.choice([1, 2, 5]))
+        for el in streamers[cls]:
+            if el["fTypeName"] == "BASE" and el["fType"] == 66:
+                bits = 0x03000000 | (rs.K_IS_REFERENCED if referenced else 0)
+                body += rs.enc_tobject(1, rng.getrandbits(31), bits, rng.getrandbits(16))
+            elif el["fTypeName"] == "BASE":
+                body += enc_class(el["fName"], truth, referenced)
+            else:
+                code = PRIM[el["fType"] if el["fArrayDim"] == 0 else el["fType"] - 20]
+                n = 1 if el["fArrayDim"] == 0 else int(np.prod(el["fMaxIndex"][: el["fArrayDim"]]))
+                vals = []
+                for _ in range(n):
+                    if code in "fd":
+                        v = float(rng.randrange(-(2 ** 20), 2 ** 20)) / 8.0
+                    elif code == "?":
+                        v = bool(rng.getrandbits(1))
+                    else:
+                        bits = 8 * struct.calcsize(code)
+                        lo, hi = (0, 2 ** bits - 1) if code.isupper() else (-(2 ** (bits - 1)), 2 ** (bits - 1) - 1)
+                        v = rng.choice([lo, hi, rng.randint(lo, hi), 0, 1])
+                    vals.append(v)
+                    body += struct.pack(">" + code, v)
+                truth.setdefault(el["fName"], []).extend(vals)
+        return rs.be(4, len(body) | rs.K_BYTE_COUNT_MASK) + body
+
+    def leaves(x, out):
+        if isinstance(x, dict):
+            for v in x.values():
+                leaves(v, out)
+        elif isinstance(x, (list, tuple)):
+            for v in x:
+                leaves(v, out)
+        elif x is not None:
+            out.append(float(x))
+
+    n_done, skipped = 0, []
+    for path, cls in rio.bes3_branch2types.items():
+        if not cls.startswith("T") or not simple(cls):
+            skipped.append(cls)
+            continue
+        for counts in ([[2, 0, 1, 3, 0], [0, 0, 0], [1], [0, 5, 0, 0, 2, 1, 0]] if thorough else [[2, 0, 1, 3, 0], [0, 4, 0]]):
+            entries, truth_ev = [], []
+            for c in counts:
+                objs, tr = [], []
+                for i in range(c):
+                    t = {}
+                    objs.append(enc_class(cls, t, referenced=(i % 2 == 1)))
+                    tr.append(t)
+                entries.append(rs.enc_tobjarray(objs, rng, class_name=cls.encode()))
+                truth_ev.append(tr)
+            data = np.frombuffer(b"".join(entries), dtype=np.uint8)
+            offs = np.concatenate([[0], np.cumsum([len(x) for x in entries])]).astype(np.uint32)
+            top = {"fName": path.rsplit("/", 1)[1], "fTypeName": "TObjArray*"}
+            chk.count(1, key=f"chain-{cls}-{counts}")
+            try:
+                fac = uproot_custom.build_factory(top, streamers, path, called_from_top=True)
+                raw = uproot_custom.cpp.read_data(data, offs, fac.build_cpp_reader())
+                got = ak.Array(fac.make_awkward_content(raw)).tolist()
+            except Exception as ex:
+                chk.failing_input("registered collection decoded through build_factory -> build_cpp_reader -> read_data", {"branch": path, "class": cls, "per_event_counts": counts, "entries_hex": [e.hex() for e in entries][:4]},
+                                  f"{type(ex).__name__}: {str(ex)[:300]}", "the stored objects", "every registered collection branch yields exactly the objects stored (any per-event counts, referenced bits set or not)")
+                return
+            ok = len(got) == len(truth_ev) and all(len(g) == len(t) for g, t in zip(got, truth_ev))
+            if ok:
+                for g_ev, t_ev in zip(got, truth_ev):
+                    for g, t in zip(g_ev, t_ev):
+                        a, b = [], []
+                        leaves(g, a); leaves(t, b)
+                        if sorted(a) != sorted(b):
+                            ok = False
+            if not ok:
+                chk.failing_input("registered collection decoded through the factory chain: objects / member values", {"branch": path, "class": cls, "per_event_counts": counts},
+                                  str(got)[:600], str(truth_ev)[:600], "same number of objects per event, same order, every member the stored value")
+                return
+            n_done += 1
+    chk.coverage["factory_chain_streams"] = n_done
+    chk.coverage["factory_chain_classes_skipped(complex members)"] = sorted(set(skipped))
+
+
+def cgem_streams(chk: core.Check, n_streams: int):
+    """Bes3CgemClusterColReader on synthetic streams (both class versions, empty events anywhere)"""
+    import struct
+    rng = random.Random(f"C01-cgem-{chk.seed}")
+    lines, expect = [], []
+    for _ in range(n_streams):
+        version = rng.choice([0, 1])
+        n_ev = rng.choice([1, 2, 3, 6])
+        counts = [rng.choice([0, 0, 1, 2, 9]) for _ in range(n_ev)]
+        if rng.random() < 0.3:
+            counts[0] = 0                                   # an empty collection in the first event of the basket
+        entries, clusters = [], []
+        for c in counts:
+            objs = []
+            for _ in range(c):
+                ints = [rng.getrandbits(32) for _ in range(5)]
+                dbl = [struct.unpack(">Q", struct.pack(">d", rng.uniform(-50, 50)))[0] for _ in range(5 if version == 0 else 4)]
+                cf = [rng.getrandbits(32) for _ in range(2)]
+                st = [rng.getrandbits(32) for _ in range(4)]
+                body = rs.be(2, 1) + rs.enc_tobject(1, 0, 0x03000000) + b"".join(rs.be(4, v) for v in ints) + b"".join(rs.be(8, v) for v in dbl[:2])
+                body += (rs.be(8, dbl[2]) if version == 0 else b"") + b"".join(rs.be(8, v) for v in dbl[-2:]) + b"".join(rs.be(4, v) for v in cf + st)
+                assert len(body) == (96 if version == 0 else 88)
+                objs.append(rs.be(4, len(body) | rs.K_BYTE_COUNT_MASK) + body)
+                clusters.append((ints, dbl, cf, st))
+            arr = rs.enc_tobjarray(objs, rng, class_name=b"TRecCgemCluster")
+            entries.append(rs.enc_obj_hdr(rng.getrandbits(16), class_name=b"TObjArray") + arr)
+        lines.append(f"CGEM {len(entries)} " + " ".join(str(len(x)) for x in entries) + " " + b"".join(entries).hex())
+        expect.append((counts, clusters, version))
+    nout, crash = run_native(lines)
+    try:
+        mout = core.lean_run("Driver/Root.lean", "\n".join(lines) + "\n")
+    except core.DriverError as ex:
+        chk.obligation_broken("correspondence", "Root driver (CGEM)", str(ex)); mout = None
+
+    def parse(line):
+        d = {}
+        for tok in line.split()[1:]:
+            k, _, v = tok.partition("=")
+            d[k] = [int(x) for x in v.split(",") if x]
+        return d
+    for idx, ((counts, clusters, version), nl) in enumerate(zip(expect, nout)):
+        chk.count(1, key=f"cgem-{idx}")
+        want_off = np.concatenate([[0], np.cumsum(counts)]).astype(int).tolist()
+        any_obj = len(clusters) > 0
+        ok = nl.startswith("OK")
+        if ok:
+            d = parse(nl)
+            for k_ in ("m_clusterID", "m_trkID", "m_layerID", "m_sheetID", "m_flag", "m_clusterFlag", "m_stripID"):
+                if k_ in d:
+                    d[k_] = [x & 0xFFFFFFFF for x in d[k_]]          # int32 columns come back sign-extended
+            ok = d.get("offsets") == want_off
+            if ok and any_obj:
+                ok = (d["m_clusterID"] == [c[0][0] for c in clusters] and d["m_flag"] == [c[0][4] for c in clusters]
+                      and d["m_energyDeposit"] == [c[1][0] for c in clusters] and d["m_recZ"] == [c[1][-1] for c in clusters]
+                      and d["m_clusterFlag"] == [v for c in clusters for v in c[2]] and d["m_stripID"] == [v for c in clusters for v in c[3]]
+                      and (("m_recPositionY" in d) == (version == 0)) and (version == 1 or d["m_recPositionY"] == [c[1][2] for c in clusters]))
+        if not ok:
+            chk.failing_input("Bes3CgemClusterColReader (native build of the working tree) on a synthetic cluster stream", {"class_version": version, "per_event_counts": counts, "line": lines[idx][:400]},
+                              nl[:500], {"offsets": want_off}, "same number of objects per event (incl. empty events), nothing moved between events, every member the stored value")
+            return
+        if mout is not None:
+            ml = mout[idx]
+            md = parse(ml) if ml.startswith("OK") else None
+            good = md is not None and md["offsets"] == want_off and md["ints"] == [v for c in clusters for v in c[0]] and md["doubles"] == [v for c in clusters for v in c[1]] \
+                and md["flags"] == [v for c in clusters for v in c[2]] and md["strips"] == [v for c in clusters for v in c[3]]
+            if not good:
+                chk.obligation_broken("correspondence", "Lean CGEM cluster model vs encoded stream", f"{ml[:200]} / counts {counts}")
+                return
+    chk.coverage["cgem_cluster_streams"] = len(lines)
 
 
 def digi(chk: core.Check):
@@ -364,6 +575,8 @@ def main(chk: core.Check) -> int:
         synthetic(chk, 1500 if thorough else 200)
         digi(chk)
         wiring(chk)
+        factory_chain(chk, thorough)
+        cgem_streams(chk, 300 if thorough else 60)
         fixtures(chk, thorough)
         chk.coverage["traces_validated_against_impl"] = chk.evals
     except native.BuildError as ex:
